@@ -96,4 +96,9 @@ META = {
   text="A component is `Decl.component d`, a function of the declaration alone - that usage sites, validators and other routes cannot change it is a theorem about the model (`usage_site_never_changes_component`), and the model is compared structurally with what the real pipeline emits for type graphs with recursion, embedding, cross-package references, every json-tag spelling and usage-site validators. The closure spec (`isClosed`, proved to imply completeness) is evaluated on the implementation's own component set.",
   note="Findings: C07-F1 (3.0 usage site rewrote shared component; fixed 5d0e242), C07-F2 (unexported / json:\"-\" / empty-name fields; fixed fc4c1e9), C07-F4 (same name in two packages collapses; open), C07-F5 (alias of alias is `object`; open).",
  ),
+ "C09": dict(
+  technique="Lean 4 proof (import aliases `Param<serial><name>` / `Response<serial><Type>` are identifiers and are injective in (serial, name) - via core's Nat.toDigits lemmas; kernel-decided facts on the regenerated GenerateRoutes skeleton: formatted before written, every failure incl. the formatter's returns before the write) + compilation of the five rendered routers for generated projects (`rig` stream)",
+  text="Alias validity and uniqueness are theorems for every serial and name; that the file type-checks is decided by compiling it - the rig prints a project, renders gin / echo / mux / chi / fiber routers with the real generator and builds them together with the project and an authorization package per engine on every case.",
+  note="Findings: C09-F1 (no routes file is gofmt-clean: blank lines are stripped after formatting; open, pinned by test/units/compilation), C09-F2 (unparsable text written with a warning; fixed 6ff4422), C09-F3 (map-typed result made the file unparsable; fixed 3f4a446).",
+ ),
 }
